@@ -282,6 +282,38 @@ def run(ctx, anchors=None):
     used = bool(pc) and any(a.get("k") == "if" for a in drv.ancestors(pc[0]))
     ctx.inst(used, "R11.4", "malformed-list-rejected", drv.loc(pc[0]) if pc else drv.loc(), "btcdeb exits when the pair list is rejected")
 
+    # ---- R11.5 a pair list that was given is parsed: the parse call of the driver is skipped only when the option is absent. Every
+    # branch that dominates the call and whose other edge goes on to set the session up (rather than leaving the program) is the
+    # test of the option itself - not, say, "a script was given", which is false for --tx/--txin and --dataset sessions.
+    ctx.rule("R11.5", "the --pretend-valid list is parsed whenever the option is given (the call is skipped only by the option test)")
+    if pc:
+        dcfg = drv.cfg()
+        setups = [n for n in drv.nodes() if n["k"] == "mcall" and n.get("n") == "setup_environment"]
+        if setups:
+            sblocks = dcfg.blocks_of_nodes(setups)
+        else:
+            # the driver was split: "goes on" = reaches a return that does not report failure (the caller sets the session up)
+            okret = [n for n in drv.nodes() if n["k"] == "return" and (n.get("e") is None or astq.const_value(n["e"]) is None or
+                                                                        (astq.const_value(n["e"]) != 0) == (drv.d.get("ret", "") == "bool"))]
+            sblocks = dcfg.blocks_of_nodes(okret) or {dcfg.exit}
+        edges = {}
+        for (a_, s_, c_, t_) in dcfg.cond_edges():
+            edges[(c_, t_)] = edges.get((c_, t_), []) + [(a_, s_)]
+        bad5 = []
+        for (c_, t_) in dcfg.guards_of(pc[0]):
+            others = edges.get((c_, not t_), [])
+            goes_on = any(sblocks & dcfg.reachable_from(s_) for (_a, s_) in others)
+            if not goes_on:
+                continue      # the other edge leaves the program (usage, version, refusal)
+            cn = drv.node_by_id(c_)
+            is_opt = cn is not None and any(x["k"] in ("mcall", "opcall") and x.get("n") in ("count", "find") and any(astq.const_value(y) == ord("P") for y in walk(x)) for x in walk(astq.expand(drv, cn)))
+            if not is_opt:
+                bad5.append(astq.estr(cn)[:60] if cn is not None else "?")
+        ctx.site()
+        ctx.inst(not bad5, "R11.5", "list-parsed-whenever-given", drv.loc(pc[0]), "the parse call is skipped only when the option is absent",
+                 "the parse call is also skipped when `%s` is %s, and the run goes on to set the session up: the listed pairs are silently dropped (and a malformed list accepted) for such sessions"
+                 % (bad5[0] if bad5 else "", "false"))
+
     # ---- R11.4b a pair list that ends in `sig:` (a signature without its key) is malformed too: every accepting path of the
     # parser either leaves the "have a signature" flag cleared by its last iteration or has decided it false after the loop
     from .. import symx as _sx11
@@ -316,6 +348,7 @@ def run(ctx, anchors=None):
 
 
 MUTANTS = [
+    dict(name="pair-list-parsed-only-with-a-script", file="btcdeb.cpp", find="    if (ca.m.count('P')) {\n        if (!instance.parse_pretend_valid_expr(", replace="    if (ca.m.count('P') && script_str) {\n        if (!instance.parse_pretend_valid_expr(", expect=["R11.5:list-parsed-whenever-given"]),
     dict(name="dangling-signature-accepted", file="instance.cpp", find="    if (got_sig) {\n        fprintf(stderr, \"parse error (signature without a public key)", replace="    if (false) {\n        fprintf(stderr, \"parse error (signature without a public key)", expect=["R11.4:dangling-signature-rejected"]),
     dict(name="multisig-mock-keyed-on-signature-lookup", file="script/interpreter.cpp",
          find="                        if (pretend_valid_pubkeys.count(vchPubKey)) {\n                            fOk = pretend_valid_map.count(vchSig) && pretend_valid_map.at(vchSig) == vchPubKey;",
